@@ -615,16 +615,16 @@ def _real_tokerr(ctx):
     exc_names = {k.name for k in ix.mro(ce)} | {'BaseException', 'Exception'}
     regions = []
     for m in sorted(ix.modules.values(), key=lambda x: x.rel):
-        if not m.rel.startswith('Cython/Compiler/'):
-            continue
+        if not m.rel.startswith('Cython/Compiler/') or 'yield' not in m.src or not any(k in m.src for k in push):
+            continue        # (text prefilter only: a region needs a yield and a call of the push function)
         fns = [('%s.%s' % (m.short, qn), m.rel, fn) for qn, owner, fn in ix.functions_of(m)]
         regions += find_regions(fns, lambda c, k, m=m: isinstance(c.func, (ast.Name, ast.Attribute)) and resolves_to(c, kinds[k], m), exc_names)
 
     def writers_of(W, sm_):
         out = []
         for m in sorted(ix.modules.values(), key=lambda x: x.rel):
-            if not m.rel.startswith('Cython/'):
-                continue
+            if not m.rel.startswith('Cython/') or W not in m.src:
+                continue    # (text prefilter only: a writer has to spell the attribute name)
             for qn, owner, fn in ix.functions_of(m):
                 for n in walk_no_nested(fn):
                     tgt = None
@@ -733,4 +733,785 @@ def rule_TOKERR(ctx, floor=8):
         not any(k.endswith(':swallows-tokenizer-errors') or k.endswith(':not-tentative') for k, *_ in good[1]) and \
         any(k.endswith('brace:error:unrecorded') for k, *_ in good[1]) and not any('unclosed' in k for k, *_ in good[1])
     r.positive_control(ok, 'mini scanner: `except CompileError: pass` swallows tokenizer errors; a site reporting through the plain reporter is unrecorded / non-fatal')
+    return r
+
+
+# ====================================================================================================== C43-DEFERRED
+# ---- abstract values of the parser flow: frozensets of atoms ('C', class qual) | ('L', elements) | ('T', (component, ...))
+EMPTY = frozenset()
+
+
+def norm(atoms, depth=0):
+    cls, lists, tuples = set(), [], {}
+    for a in atoms:
+        if a[0] == 'C':
+            cls.add(a)
+        elif a[0] == 'L':
+            lists.append(a[1])
+        else:
+            tuples.setdefault(len(a[1]), []).append(a[1])
+    out = set(cls)
+    if lists:
+        el = frozenset().union(*lists)
+        out.add(('L', norm(el, depth + 1) if depth < 3 else frozenset(x for x in flat(el))))
+    for n, ts in tuples.items():
+        comps = tuple(norm(frozenset().union(*[t[i] for t in ts]), depth + 1) if depth < 3 else frozenset(flat(frozenset().union(*[t[i] for t in ts]))) for i in range(n))
+        out.add(('T', comps))
+    return frozenset(out)
+
+
+def flat(atoms):
+    """all class atoms at any depth"""
+    for a in atoms:
+        if a[0] == 'C':
+            yield a
+        elif a[0] == 'L':
+            yield from flat(a[1])
+        else:
+            for c in a[1]:
+                yield from flat(c)
+
+
+def elems(v):
+    out = set()
+    for a in v:
+        if a[0] == 'L':
+            out |= a[1]
+        elif a[0] == 'T':
+            for c in a[1]:
+                out |= c
+    return norm(out)
+
+
+def component(v, i):
+    out = set()
+    for a in v:
+        if a[0] == 'T' and i < len(a[1]):
+            out |= a[1][i]
+        elif a[0] == 'L':
+            out |= a[1]
+    return norm(out)
+
+
+def scalars(v):
+    return {a[1] for a in v if a[0] == 'C'}
+
+
+class ParserFlow:
+    """Which node classes can the parser put into which child slot?  Flow-insensitive value flow through the functions of one module."""
+
+    def __init__(self, ix, module, root):
+        self.ix, self.m, self.root = ix, module, root
+        self.ret = {name: EMPTY for name in module.functions}
+        self.slots = {}          # (class qual, attr) -> value
+        self.classes = {}        # class qual -> ClassInfo  (classes the parser constructs)
+        self.ctor_sites = {}     # class qual -> [(function name, line)]
+        self._ctor_cache = {}
+        self.changed = True
+        rounds = 0
+        while self.changed:
+            self.changed = False
+            rounds += 1
+            if rounds > 12:
+                raise AnalysisError('parser value flow does not stabilise')
+            for name, fn in module.functions.items():
+                self.function(name, fn)
+
+    def ctor(self, call):
+        k = id(call)
+        if k not in self._ctor_cache:
+            r = self.ix.resolve_expr(self.m, call.func) if isinstance(call.func, (ast.Name, ast.Attribute)) else None
+            self._ctor_cache[k] = r[1] if (r and r[0] == 'class' and self.root in self.ix.mro(r[1])) else None
+        return self._ctor_cache[k]
+
+    def add_slot(self, key, v):
+        old = self.slots.get(key, EMPTY)
+        new = norm(old | v)
+        if new != old or key not in self.slots:
+            self.slots[key] = new
+            self.changed = True
+
+    def ev(self, e, env):
+        if isinstance(e, ast.Call):
+            c = self.ctor(e)
+            if c is not None:
+                return frozenset([('C', c.qual)])
+            f = e.func
+            if isinstance(f, ast.Name):
+                if f.id in self.ret:
+                    return self.ret[f.id]
+                if f.id in ('list', 'tuple', 'reversed', 'sorted') and len(e.args) == 1:
+                    return self.ev(e.args[0], env)
+            return EMPTY
+        if isinstance(e, ast.Name):
+            return env.get(e.id, EMPTY)
+        if isinstance(e, (ast.List, ast.Set)):
+            out = set()
+            for x in e.elts:
+                out |= self.ev(x.value if isinstance(x, ast.Starred) else x, env) if not isinstance(x, ast.Starred) else elems(self.ev(x.value, env))
+            return frozenset([('L', norm(out))])
+        if isinstance(e, ast.Tuple):
+            return frozenset([('T', tuple(self.ev(x, env) for x in e.elts))])
+        if isinstance(e, (ast.ListComp, ast.GeneratorExp, ast.SetComp)):
+            env2 = dict(env)
+            for g in e.generators:
+                self.bind(g.target, elems(self.ev(g.iter, env2)), env2)
+            return frozenset([('L', self.ev(e.elt, env2))])
+        if isinstance(e, ast.Subscript):
+            v = self.ev(e.value, env)
+            if isinstance(e.slice, ast.Constant) and isinstance(e.slice.value, int) and e.slice.value >= 0:
+                return component(v, e.slice.value)
+            if isinstance(e.slice, ast.Slice):
+                return v
+            return elems(v)
+        if isinstance(e, ast.IfExp):
+            return norm(self.ev(e.body, env) | self.ev(e.orelse, env))
+        if isinstance(e, ast.BoolOp):
+            return norm(frozenset().union(*[self.ev(x, env) for x in e.values]))
+        if isinstance(e, ast.Attribute):
+            out = set()
+            for q in scalars(self.ev(e.value, env)):
+                out |= self.slots.get((q, e.attr), EMPTY)
+            return norm(out)
+        if isinstance(e, ast.BinOp) and isinstance(e.op, ast.Add):
+            return norm(self.ev(e.left, env) | self.ev(e.right, env))
+        return EMPTY
+
+    def bind(self, target, v, env):
+        if isinstance(target, ast.Name):
+            old = env.get(target.id, EMPTY)
+            new = norm(old | v)
+            if new != old:
+                env[target.id] = new
+                return True
+        elif isinstance(target, (ast.Tuple, ast.List)):
+            ch = False
+            for i, t in enumerate(target.elts):
+                ch |= bool(self.bind(t, component(v, i), env))
+            return ch
+        return False
+
+    def function(self, name, fn):
+        env = {}
+        nodes = list(walk_no_nested(fn))
+        nodes.sort(key=lambda n: (getattr(n, 'lineno', 0), getattr(n, 'col_offset', 0)))
+        for _ in range(6):
+            ch = False
+            for n in nodes:
+                if isinstance(n, ast.Assign):
+                    v = self.ev(n.value, env)
+                    for t in n.targets:
+                        if isinstance(t, ast.Attribute):
+                            for q in scalars(self.ev(t.value, env)):
+                                self.add_slot((q, t.attr), v)
+                        else:
+                            ch |= bool(self.bind(t, v, env))
+                elif isinstance(n, ast.AnnAssign) and n.value is not None:
+                    ch |= bool(self.bind(n.target, self.ev(n.value, env), env))
+                elif isinstance(n, ast.AugAssign):
+                    ch |= bool(self.bind(n.target, self.ev(n.value, env), env))
+                elif isinstance(n, ast.For):
+                    ch |= bool(self.bind(n.target, elems(self.ev(n.iter, env)), env))
+                elif isinstance(n, ast.Expr) and isinstance(n.value, ast.Call) and isinstance(n.value.func, ast.Attribute) and \
+                        n.value.func.attr in ('append', 'extend', 'insert') and n.value.args:
+                    c = n.value
+                    arg = self.ev(c.args[-1], env)
+                    v = arg if c.func.attr == 'extend' else frozenset([('L', arg)])
+                    tgt = c.func.value
+                    if isinstance(tgt, ast.Name):
+                        ch |= bool(self.bind(tgt, v, env))
+                    elif isinstance(tgt, ast.Attribute):
+                        for q in scalars(self.ev(tgt.value, env)):
+                            self.add_slot((q, tgt.attr), v)
+                elif isinstance(n, ast.Return) and n.value is not None:
+                    v = norm(self.ret[name] | self.ev(n.value, env))
+                    if v != self.ret[name]:
+                        self.ret[name] = v
+                        self.changed = True
+                if isinstance(n, ast.Call):
+                    c = self.ctor(n)
+                    if c is not None:
+                        if c.qual not in self.classes:
+                            self.classes[c.qual] = c
+                            self.changed = True
+                        sites = self.ctor_sites.setdefault(c.qual, [])
+                        if (name, n.lineno) not in sites:
+                            sites.append((name, n.lineno))
+                        for k in n.keywords:
+                            if k.arg:
+                                self.add_slot((c.qual, k.arg), self.ev(k.value, env))
+            if not ch:
+                break
+
+    # ---- queries
+    def holders(self, xq):
+        """-> [(class qual, attr, 'scalar' | 'list')] slots that may hold class xq"""
+        out = []
+        for (q, a), v in sorted(self.slots.items()):
+            if ('C', xq) in v:
+                out.append((q, a, 'scalar'))
+            if any(at[0] != 'C' and ('C', xq) in set(flat([at])) for at in v):
+                out.append((q, a, 'list'))
+        return out
+
+    def containing(self, xq):
+        """class quals whose subtree may hold xq"""
+        cont = set()
+        changed = True
+        while changed:
+            changed = False
+            for (q, a), v in self.slots.items():
+                if q in cont:
+                    continue
+                names = {c[1] for c in flat(v)}
+                if xq in names or names & cont:
+                    cont.add(q)
+                    changed = True
+        return cont
+
+
+def exit_kinds(fn, node_param, raising_helpers, selfname):
+    """-> set of 'raise' | 'none' | 'node' | 'other': how the handler can leave"""
+    kinds = set()
+
+    def walk(stmts):
+        """-> falls through?"""
+        for st in stmts:
+            if isinstance(st, ast.Raise):
+                kinds.add('raise')
+                return False
+            if isinstance(st, ast.Return):
+                v = st.value
+                if v is None or (isinstance(v, ast.Constant) and v.value is None):
+                    kinds.add('none')
+                elif isinstance(v, ast.Name) and v.id == node_param:
+                    kinds.add('node')
+                else:
+                    kinds.add('other')
+                return False
+            if isinstance(st, ast.Expr) and isinstance(st.value, ast.Call) and isinstance(st.value.func, ast.Attribute) and \
+                    isinstance(st.value.func.value, ast.Name) and st.value.func.value.id == selfname and st.value.func.attr in raising_helpers:
+                kinds.add('raise')
+                return False
+            if isinstance(st, ast.If):
+                a = walk(st.body)
+                b = walk(st.orelse)
+                if not a and not b:
+                    return False
+            elif isinstance(st, (ast.For, ast.While)):
+                walk(st.body)
+                walk(st.orelse)
+            elif isinstance(st, ast.With):
+                if not walk(st.body):
+                    return False
+            elif isinstance(st, ast.Try):
+                a = walk(st.body)
+                hs = [walk(h.body) for h in st.handlers]
+                if st.finalbody and not walk(st.finalbody):
+                    return False
+                if not a and not any(hs):
+                    return False
+        return True
+    if walk(fn.body):
+        kinds.add('none')
+    return kinds
+
+
+def _is_visit_children_call(c, selfname, node_param, resolver=None, depth=0):
+    """self.visitchildren(node) / self._process_children(node), or a call of a method of the transform (self.m(node), super().m(node))
+    that itself visits the children of the parameter the node is passed for"""
+    f = c.func
+    if not isinstance(f, ast.Attribute):
+        return False
+    recv = f.value
+    is_self = isinstance(recv, ast.Name) and recv.id == selfname
+    is_super = isinstance(recv, ast.Call) and isinstance(recv.func, ast.Name) and recv.func.id == 'super'
+    if not (is_self or is_super):
+        return False
+    pos = [i for i, a in enumerate(c.args) if isinstance(a, ast.Name) and a.id == node_param]
+    if not pos:
+        return False
+    if 'children' in f.attr:
+        return True
+    fn2 = resolver(f.attr, is_super) if (resolver is not None and depth < 5) else None
+    if fn2 is None or len(fn2.args.args) <= 1 + pos[0]:
+        return False
+    sn2, np2 = fn2.args.args[0].arg, fn2.args.args[1 + pos[0]].arg
+    return any(isinstance(n, ast.Call) and _is_visit_children_call(n, sn2, np2, resolver, depth + 1) for n in walk_no_nested(fn2))
+
+
+def previsit_calls(fn, resolver=None):
+    """-> (calls [(method name, call)] made on the node before the children were visited, visited_at_end, has_visit_call)"""
+    selfname, node_param = fn.args.args[0].arg, fn.args.args[1].arg
+    pre = []
+    has = [False]
+
+    def stmt_exprs(st):
+        for fld, val in ast.iter_fields(st):
+            if fld in ('body', 'orelse', 'finalbody', 'handlers'):
+                continue
+            if isinstance(val, ast.AST):
+                yield val
+            elif isinstance(val, list):
+                for x in val:
+                    if isinstance(x, ast.AST):
+                        yield x
+
+    def scan(stmts, visited):
+        for st in stmts:
+            if isinstance(st, (ast.FunctionDef, ast.AsyncFunctionDef, ast.ClassDef)):
+                continue
+            calls = [n for e in stmt_exprs(st) for n in ast.walk(e) if isinstance(n, ast.Call)]
+            vis_here = any(_is_visit_children_call(c, selfname, node_param, resolver) for c in calls)
+            if vis_here:
+                has[0] = True
+            if not visited:
+                for c in calls:
+                    f = c.func
+                    if isinstance(f, ast.Attribute) and isinstance(f.value, ast.Name) and f.value.id == node_param:
+                        if not vis_here or c.lineno < min(x.lineno for x in calls if _is_visit_children_call(x, selfname, node_param, resolver)):
+                            pre.append((f.attr, c))
+            if isinstance(st, ast.If):
+                a = scan(st.body, visited or vis_here)
+                b = scan(st.orelse, visited or vis_here)
+                visited = (visited or vis_here) or (a and b and bool(st.orelse))
+            elif isinstance(st, (ast.For, ast.While, ast.With)):
+                scan(st.body, visited or vis_here)
+                visited = visited or vis_here
+            elif isinstance(st, ast.Try):
+                a = scan(st.body, visited or vis_here)
+                for h in st.handlers:
+                    scan(h.body, visited or vis_here)
+                v2 = scan(st.finalbody, a) if st.finalbody else a
+                visited = visited or vis_here or v2
+            else:
+                visited = visited or vis_here
+            if isinstance(st, (ast.Return, ast.Raise)):
+                break
+        return visited
+    end = scan(fn.body, False)
+    return pre, end, has[0]
+
+
+class TypeEval:
+    """Attribute accesses on values that may be the placeholder, reached from one method of one constructed class."""
+
+    def __init__(self, ix, flow, xq, xc, cont):
+        self.ix, self.flow, self.xq, self.xc, self.cont = ix, flow, xq, xc, cont
+        self.memo = {}
+        self.xattrs = set(ix.defined_attrs(xc)) | {a for (q, a) in flow.slots if q == xq}
+        self.steps = 0
+
+    def method(self, cq, mname):
+        key = (cq, mname)
+        if key in self.memo:
+            return self.memo[key]
+        self.memo[key] = []
+        ci = self.flow.classes.get(cq)
+        r = self.ix.find_method(ci, mname) if ci is not None else None
+        if r:
+            self.memo[key] = self.run(cq, r[0], r[1])
+        return self.memo[key]
+
+    def is_x(self, owner, e):
+        r = self.ix.resolve_expr(owner.module, e) if isinstance(e, (ast.Name, ast.Attribute)) else None
+        return bool(r and r[0] == 'class' and r[1] is self.xc)
+
+    def guard(self, owner, test):
+        """isinstance(E, X) -> (text of E, True);  not isinstance(E, X) -> (text, False)"""
+        pos = True
+        if isinstance(test, ast.UnaryOp) and isinstance(test.op, ast.Not):
+            test, pos = test.operand, False
+        if isinstance(test, ast.Call) and isinstance(test.func, ast.Name) and test.func.id == 'isinstance' and len(test.args) == 2:
+            cl = test.args[1]
+            if any(self.is_x(owner, c) for c in (cl.elts if isinstance(cl, ast.Tuple) else [cl])):
+                return _u(test.args[0]), pos
+        return None
+
+    def run(self, cq, owner, fn):
+        self.steps += 1
+        if self.steps > 4000:
+            raise AnalysisError('C43-DEFERRED: type evaluation does not terminate')
+        selfname = fn.args.args[0].arg if fn.args.args else 'self'
+        env = {}
+        off = []
+        slots = self.flow.slots
+
+        def ty(e):
+            if isinstance(e, ast.Name):
+                return env.get(e.id, EMPTY)
+            if isinstance(e, ast.Attribute):
+                if isinstance(e.value, ast.Name) and e.value.id == selfname:
+                    return slots.get((cq, e.attr), EMPTY)
+                out = set()
+                for q in scalars(ty(e.value)):
+                    out |= slots.get((q, e.attr), EMPTY)
+                return norm(out)
+            if isinstance(e, ast.Subscript):
+                v = ty(e.value)
+                if isinstance(e.slice, ast.Constant) and isinstance(e.slice.value, int) and e.slice.value >= 0:
+                    return component(v, e.slice.value)
+                return v if isinstance(e.slice, ast.Slice) else elems(v)
+            if isinstance(e, ast.Call) and isinstance(e.func, ast.Name):
+                if e.func.id == 'zip':
+                    return frozenset([('L', frozenset([('T', tuple(elems(ty(a)) for a in e.args))]))])
+                if e.func.id == 'enumerate' and e.args:
+                    return frozenset([('L', frozenset([('T', (EMPTY, elems(ty(e.args[0]))))]))])
+                if e.func.id in ('list', 'tuple', 'reversed', 'sorted', 'iter') and len(e.args) == 1:
+                    return ty(e.args[0])
+            if isinstance(e, ast.IfExp):
+                return norm(ty(e.body) | ty(e.orelse))
+            if isinstance(e, ast.BoolOp):
+                return norm(frozenset().union(*[ty(x) for x in e.values]))
+            if isinstance(e, (ast.List, ast.Tuple)):
+                return frozenset([('L', norm(frozenset().union(*[ty(x) for x in e.elts]) if e.elts else EMPTY))])
+            if isinstance(e, ast.BinOp) and isinstance(e.op, ast.Add):
+                return norm(ty(e.left) | ty(e.right))
+            return EMPTY
+
+        def bind(t, v):
+            if isinstance(t, ast.Name):
+                env[t.id] = norm(env.get(t.id, EMPTY) | v)
+            elif isinstance(t, (ast.Tuple, ast.List)):
+                for i, x in enumerate(t.elts):
+                    bind(x, component(v, i))
+
+        def check(e, excl):
+            if e is None:
+                return
+            if isinstance(e, (ast.ListComp, ast.GeneratorExp, ast.SetComp, ast.DictComp)):
+                ex = set(excl)
+                for g in e.generators:
+                    check(g.iter, ex)
+                    bind(g.target, elems(ty(g.iter)))
+                    for cond in g.ifs:
+                        check(cond, ex)
+                        gd = self.guard(owner, cond)
+                        if gd and not gd[1]:
+                            ex.add(gd[0])
+                for part in ([e.key, e.value] if isinstance(e, ast.DictComp) else [e.elt]):
+                    check(part, ex)
+                return
+            if isinstance(e, ast.Lambda):
+                return
+            if isinstance(e, ast.BoolOp):
+                ex = set(excl)
+                for v in e.values:
+                    check(v, ex)
+                    gd = self.guard(owner, v)
+                    if gd and ((isinstance(e.op, ast.And) and not gd[1]) or (isinstance(e.op, ast.Or) and gd[1])):
+                        ex.add(gd[0])
+                return
+            if isinstance(e, ast.IfExp):
+                check(e.test, excl)
+                gd = self.guard(owner, e.test)
+                check(e.body, excl | ({gd[0]} if gd and not gd[1] else set()))
+                check(e.orelse, excl | ({gd[0]} if gd and gd[1] else set()))
+                return
+            if isinstance(e, ast.Call) and isinstance(e.func, ast.Name) and e.func.id in ('isinstance', 'getattr', 'hasattr'):
+                for a in e.args[1:]:
+                    check(a, excl)
+                if e.args and not isinstance(e.args[0], (ast.Name, ast.Attribute)):
+                    check(e.args[0], excl)
+                elif e.args and isinstance(e.args[0], ast.Attribute):
+                    check(e.args[0].value, excl)
+                return
+            if isinstance(e, ast.Attribute) and isinstance(e.ctx, ast.Load):
+                base = e.value
+                is_call = False
+                if isinstance(base, ast.Name) and base.id == selfname:
+                    pass
+                else:
+                    v = ty(base)
+                    if self.xq in scalars(v) and _u(base) not in excl and e.attr not in self.xattrs:
+                        off.append((cq, '%s.%s' % (owner.qual, fn.name), _u(e), e.attr, e.lineno, owner.module.rel))
+                check(base, excl)
+                return
+            if isinstance(e, ast.Call):
+                f = e.func
+                if isinstance(f, ast.Attribute):
+                    if isinstance(f.value, ast.Name) and f.value.id == selfname:
+                        off.extend(self.method(cq, f.attr))
+                    else:
+                        for q in sorted(scalars(ty(f.value))):
+                            if q != self.xq and q in self.cont:
+                                off.extend(self.method(q, f.attr))
+                check(f, excl)
+                for a in e.args:
+                    check(a.value if isinstance(a, ast.Starred) else a, excl)
+                for k in e.keywords:
+                    check(k.value, excl)
+                return
+            for ch in ast.iter_child_nodes(e):
+                if isinstance(ch, ast.expr):
+                    check(ch, excl)
+
+        def block(stmts, excl):
+            excl = set(excl)
+            for st in stmts:
+                if isinstance(st, (ast.FunctionDef, ast.AsyncFunctionDef, ast.ClassDef)):
+                    continue
+                if isinstance(st, ast.If):
+                    check(st.test, excl)
+                    gd = self.guard(owner, st.test)
+                    if gd:
+                        text, pos = gd
+                        block(st.body, excl | (set() if pos else {text}))
+                        block(st.orelse, excl | ({text} if pos else set()))
+                        if pos and _ends(st.body):
+                            excl.add(text)
+                        if not pos and st.orelse and _ends(st.orelse):
+                            excl.add(text)
+                    else:
+                        block(st.body, excl)
+                        block(st.orelse, excl)
+                elif isinstance(st, (ast.For, ast.AsyncFor)):
+                    check(st.iter, excl)
+                    bind(st.target, elems(ty(st.iter)))
+                    names = {x.id for x in ast.walk(st.target) if isinstance(x, ast.Name)}
+                    block(st.body, {t for t in excl if t not in names})
+                    block(st.orelse, excl)
+                elif isinstance(st, ast.While):
+                    check(st.test, excl)
+                    block(st.body, excl)
+                    block(st.orelse, excl)
+                elif isinstance(st, ast.Try):
+                    block(st.body, excl)
+                    for h in st.handlers:
+                        block(h.body, excl)
+                    block(st.orelse, excl)
+                    block(st.finalbody, excl)
+                elif isinstance(st, (ast.With, ast.AsyncWith)):
+                    for it in st.items:
+                        check(it.context_expr, excl)
+                    block(st.body, excl)
+                elif isinstance(st, (ast.Assign, ast.AnnAssign, ast.AugAssign)):
+                    val = st.value
+                    check(val, excl)
+                    targets = st.targets if isinstance(st, ast.Assign) else [st.target]
+                    for t in targets:
+                        if isinstance(t, (ast.Name, ast.Tuple, ast.List)) and val is not None:
+                            bind(t, ty(val))
+                            for x in ast.walk(t):
+                                if isinstance(x, ast.Name):
+                                    excl.discard(x.id)
+                        else:
+                            for ch in ast.iter_child_nodes(t):
+                                if isinstance(ch, ast.expr):
+                                    check(ch, excl)
+                else:
+                    for ch in ast.iter_child_nodes(st):
+                        if isinstance(ch, ast.expr):
+                            check(ch, excl)
+        # two passes so that loop-carried bindings are seen
+        block(fn.body, set())
+        del off[:]
+        saved = dict(self.memo)
+        block(fn.body, set())
+        seen, res = set(), []
+        for o in off:
+            if o not in seen:
+                seen.add(o)
+                res.append(o)
+        return res
+
+
+def none_deref_witness(ix, ci, attr, root):
+    """a method of ci (MRO) that reads self.<attr>.<x> and never tests self.<attr> against None / for truth -> (qual, line, text) or None"""
+    for k in ix.mro(ci):
+        if root not in ix.mro(k):
+            continue
+        for name, fn in sorted(k.methods.items()):
+            if not fn.args.args:
+                continue
+            sn = fn.args.args[0].arg
+            text = '%s.%s' % (sn, attr)
+            derefs = [n for n in walk_no_nested(fn) if isinstance(n, ast.Attribute) and isinstance(n.value, ast.Attribute) and _u(n.value) == text and isinstance(n.ctx, ast.Load)]
+            if not derefs:
+                continue
+            tested = False
+            for n in walk_no_nested(fn):
+                if isinstance(n, ast.Compare) and _u(n.left) == text and any(isinstance(c, ast.Constant) and c.value is None for c in n.comparators):
+                    tested = True
+                if isinstance(n, (ast.If, ast.IfExp, ast.While)) and _u(n.test) in (text, 'not ' + text):
+                    tested = True
+                if isinstance(n, ast.BoolOp) and any(_u(v) in (text, 'not ' + text) for v in n.values):
+                    tested = True
+            if not tested:
+                d = min(derefs, key=lambda n: n.lineno)
+                return ('%s.%s' % (k.qual, name), d.lineno, _u(d), k.module.rel)
+    return None
+
+
+def deferred_model(ix):
+    root = ix.cls('Nodes', 'Node')
+    pm = ix.mod('Parsing')
+    er = ix.mod('Errors')
+    ce = er.classes.get('CompileError')
+    flow = ParserFlow(ix, pm, root)
+    vt = ix.cls('Visitor', 'TreeVisitor')
+    transforms = [c for c in ix.all_classes() if vt in ix.mro(c) and c is not vt]
+    # ---- placeholder classes: a handler turns the node itself into an error (its arguments are attributes of the node)
+    found = {}      # class qual -> [(transform ClassInfo, handler FunctionDef)]
+    for t in sorted(transforms, key=lambda c: c.qual):
+        for name, fn in sorted(t.methods.items()):
+            if not name.startswith('visit_') or len(fn.args.args) < 2:
+                continue
+            np_ = fn.args.args[1].arg
+            for n in walk_no_nested(fn):
+                if not isinstance(n, ast.Call) or len(n.args) < 2:
+                    continue
+                r = ix.resolve_expr(t.module, n.func) if isinstance(n.func, (ast.Name, ast.Attribute)) else None
+                is_err = bool(r and ((r[0] == 'func' and r[1] is er and any(isinstance(x, ast.Call) and isinstance(x.func, ast.Name) and x.func.id in er.classes and ce in ix.mro(er.classes[x.func.id])
+                                                                                        for x in walk_no_nested(r[2])))
+                                     or (r[0] == 'class' and ce is not None and ce in ix.mro(r[1]))))
+                if not is_err:
+                    continue
+                if all(isinstance(a, ast.Attribute) and isinstance(a.value, ast.Name) and a.value.id == np_ for a in n.args[:2]):
+                    for xc in ix.classes_by_name.get(name[6:], []):
+                        if root in ix.mro(xc) and xc.qual in flow.classes:
+                            found.setdefault(xc.qual, []).append((t, fn))
+    # ---- inert classes nobody handles: constructed by the parser, no methods, no children, no handler in any transform
+    unhandled = []
+    for q, c in sorted(flow.classes.items()):
+        if c.bases == [root] and not c.methods and q not in found:
+            ca = ix.class_list_attr(c, 'child_attrs')
+            if ca is not None and ca[0] is c and not ca[1]:
+                if not any(('visit_' + c.name) in t.methods for t in transforms):
+                    unhandled.append(c)
+    return root, flow, found, unhandled, transforms
+
+
+def deferred_findings(ix, root, flow, found, unhandled):
+    inst, finds, infos = [], [], []
+    for c in unhandled:
+        key = 'unhandled:%s' % c.qual
+        inst.append((key, '%s: constructed by the parser, no interface, no handler' % c.qual))
+        site = flow.ctor_sites.get(c.qual, [('?', 0)])[0]
+        finds.append((key, flow.m.rel, site[1], 'the parser (%s) puts a %s into the tree, a node class without any node interface (no methods, no children), and no transform has a '
+                      'visit_%s handler that turns it into an error: the first phase that calls a node method on it raises AttributeError - a compiler crash instead of a syntax error' % (site[0], c.qual, c.name)))
+    for xq, handlers in sorted(found.items()):
+        xc = flow.classes[xq]
+        holders = flow.holders(xq)
+        cont = flow.containing(xq)
+        sites = flow.ctor_sites.get(xq, [])
+        if not holders:
+            infos.append('%s: constructed at %d parser sites but reaches no child slot' % (xq, len(sites)))
+        for t, hfn in handlers:
+            selfname, np_ = hfn.args.args[0].arg, hfn.args.args[1].arg
+            helpers = set()
+            for k in ix.mro(t):
+                for mn, mf in k.methods.items():
+                    if mf is not hfn and mf.args.args and exit_kinds(mf, None, set(), mf.args.args[0].arg) == {'raise'}:
+                        helpers.add(mn)
+            kinds = exit_kinds(hfn, np_, helpers, selfname)
+            hl = '%s.%s' % (t.qual, hfn.name)
+            inst.append(('exit:%s' % hl, '%s leaves by: %s' % (hl, ', '.join(sorted(kinds)))))
+            if kinds - {'raise', 'none'}:
+                finds.append(('survives:%s' % hl, t.module.rel, hfn.lineno,
+                              '%s can return a node (%s): the %s placeholder (or its replacement without a node interface) stays in the tree after the phase that was to turn it into the '
+                              'deferred syntax error; the next transform that calls a node method on the slot contents raises AttributeError (compiler crash instead of a positioned error)'
+                              % (hl, ', '.join(sorted(kinds - {'raise', 'none'})), xq)))
+            # ---- (exit) + (reach) per slot
+            for q, a, how in holders:
+                pc = flow.classes.get(q)
+                key = '%s.%s:%s' % (q, a, xc.name)
+                inst.append(('slot:' + key, '%s.%s may hold %s (%s)' % (q, a, xc.name, how)))
+                ca = ix.class_list_attr(pc, 'child_attrs') if pc is not None else None
+                if ca is None:
+                    infos.append('%s: child_attrs not a literal list, reachability of .%s not decided' % (q, a))
+                elif a not in ca[1]:
+                    finds.append(('unreached:' + key, flow.m.rel, (flow.ctor_sites.get(q) or [('?', 0)])[0][1],
+                                  'the parser can store a %s in %s.%s, which is not one of the class\'s child_attrs (%s): %s never visits it, the deferred syntax error is never reported '
+                                  'and the placeholder is used as if it were a real node (AttributeError in a later phase)' % (xq, q, a, ', '.join(ca[1]), hl)))
+                if 'none' in kinds and how == 'scalar' and pc is not None:
+                    w = none_deref_witness(ix, pc, a, root)
+                    if w is None:
+                        infos.append('%s: %s returns None for the %s in this scalar slot, every reader of the slot tests it for None' % (key, hl, xc.name))
+                    else:
+                        finds.append(('drop:' + key, t.module.rel, hfn.lineno,
+                                      '%s reports the deferred error without stopping and returns None, which the visitor stores in the scalar child slot %s.%s (the parser puts the %s there, '
+                                      'e.g. from %s); compilation goes on to the next phases until abort_on_errors, and %s reads `%s` (line %d) without a None test: AttributeError on NoneType - '
+                                      '"Compiler crash" plus a traceback instead of just the positioned syntax error' % (hl, q, a, xc.name, ', '.join(sorted({s[0] for s in sites})[:3]), w[0], w[2], w[1])))
+            # ---- (visit) + (pre-visit): handlers of this transform for classes whose subtree may hold the placeholder
+            by_handler = {}
+            for q in sorted(cont):
+                pc = flow.classes.get(q)
+                if pc is None:
+                    continue
+                h = ix.visitor_handler(t, pc)
+                if h is None:
+                    continue
+                by_handler.setdefault(id(h[2]), (h, []))[1].append(q)
+            te = TypeEval(ix, flow, xq, xc, cont)
+            for (k, owner, fn), quals in sorted(by_handler.values(), key=lambda x: (x[0][1].qual, x[0][2].name)):
+                if len(fn.args.args) < 2:
+                    continue
+                fl = '%s.%s' % (owner.qual, fn.name)
+                def resolver(mname, is_super, t=t, owner=owner, fn=fn):
+                    if is_super:
+                        mro = ix.mro(owner)
+                        for k2 in mro[1:]:
+                            if mname in k2.methods:
+                                return k2.methods[mname]
+                        return None
+                    r2 = ix.find_method(t, mname)
+                    return r2[1] if r2 and r2[1] is not fn else None
+                pre, end, has = previsit_calls(fn, resolver)
+                inst.append(('visit:%s' % fl, '%s (for %s): visits children: %s, %d node method calls before' % (fl, ', '.join(x.rsplit('.', 1)[-1] for x in quals), 'yes' if end else ('conditionally' if has else 'NO'), len(pre))))
+                if not has:
+                    finds.append(('unvisited:%s' % fl, owner.module.rel, fn.lineno,
+                                  '%s handles %s, whose subtree can hold a %s placeholder, but never visits the children: the placeholder below it is not turned into its syntax error in this phase and '
+                                  'reaches the later phases, which call node methods on it (AttributeError, compiler crash)' % (fl, ', '.join(quals), xq)))
+                elif not end:
+                    infos.append('%s: children visited on some paths only - not decided' % fl)
+                seen_m = set()
+                for mname, call in pre:
+                    if mname in seen_m:
+                        continue
+                    seen_m.add(mname)
+                    offs = []
+                    for q in quals:
+                        offs += te.method(q, mname)
+                    key = 'previsit:%s:%s' % (fl, mname)
+                    inst.append((key, '%s calls %s.%s() before visiting the children: %d unsafe accesses' % (fl, fn.args.args[1].arg, mname, len(offs))))
+                    if offs:
+                        uniq = []
+                        for o in offs:
+                            if (o[1], o[2]) not in [(u[1], u[2]) for u in uniq]:
+                                uniq.append(o)
+                        finds.append((key, owner.module.rel, call.lineno,
+                                      '%s calls %s.%s() before it visited the children, i.e. while a %s placeholder can still sit in the subtree (parser: %s); the call reaches %s - %s does not define '
+                                      '%s: AttributeError, reported as "Compiler crash in %s" instead of the deferred syntax error (e.g. `case [_ as _]:`, `case 1 | (2 as _):`)'
+                                      % (fl, fn.args.args[1].arg, mname, xc.name, ', '.join(sorted({s[0] for s in sites})[:3]),
+                                         '; '.join('`%s` in %s (line %d, receiver class %s)' % (o[2], o[1], o[4], o[0].rsplit('.', 1)[-1]) for o in uniq[:3]),
+                                         xc.name, ' / '.join(sorted({repr(o[3]) for o in uniq[:3]})), t.name)))
+    return inst, finds, infos
+
+
+def rule_DEFERRED(ctx, floor=10):
+    r = Rule('C43-DEFERRED', 'placeholder nodes the parser uses to defer a syntax error (ErrorNode): the handler that turns them into the error stops the phase by raising (no None left in a '
+                             'scalar slot, no placeholder left in the tree), every slot the parser can put one into is a visited child slot, and the eliminating transform calls no node method '
+                             'that touches a possible placeholder before it visited the children', floor)
+    ix = ctx.index
+    root, flow, found, unhandled, transforms = deferred_model(ix)
+    if not found and not unhandled:
+        raise AnalysisError('no placeholder node class found (no transform handler turns a parser-built node into an error): ErrorNode mechanism moved?')
+    if len(flow.classes) < 80:
+        raise AnalysisError('parser flow: only %d node classes constructed in Parsing' % len(flow.classes))
+    inst, finds, infos = deferred_findings(ix, root, flow, found, unhandled)
+    for key, sample in inst:
+        r.inst(key, sample=sample)
+    for key, rel, line, msg in finds:
+        r.violate(key, rel, line, msg)
+    for i in infos:
+        r.info(i)
+    # embedded examples for the two local analyses
+    bad = ast.parse("def visit_X(self, node):\n    error(node.pos, node.what)\n    return None\n").body[0]
+    good = ast.parse("def visit_X(self, node):\n    if node.what:\n        raise E(node.pos, node.what)\n    else:\n        self.fail(node)\n").body[0]
+    h1 = ast.parse("def visit_P(self, node):\n    node.validate()\n    self.visitchildren(node)\n    return node\n").body[0]
+    h2 = ast.parse("def visit_P(self, node):\n    self.visitchildren(node)\n    node.validate()\n    return node\n").body[0]
+    ok = exit_kinds(bad, 'node', set(), 'self') == {'none'} and exit_kinds(good, 'node', {'fail'}, 'self') == {'raise'} and \
+        [m for m, c in previsit_calls(h1)[0]] == ['validate'] and previsit_calls(h2)[0] == [] and previsit_calls(h2)[1]
+    r.positive_control(ok, 'handler that reports and returns None / handler that validates before visiting the children')
     return r
